@@ -6,6 +6,7 @@ import (
 
 	"github.com/go-kid/ioc/app"
 	"github.com/go-kid/ioc/definition"
+	"github.com/go-kid/ioc/syslog"
 	"github.com/go-kid/ioc/util/vsync"
 
 	"verif/internal/core"
@@ -21,7 +22,7 @@ func init() {
 			"scheduling points are the synchronisation operations of the repository code (WaitGroup, Mutex, sync.Map, go statements) plus the closers' own yield points; plain memory accesses between them are covered by the race detector, not by interleaving",
 			"weak-memory behaviours below tsan's happens-before model are not covered",
 		},
-		Parts: []Part{{Name: "close", Race: true, Run: c14Run, QuickS: 120, ThoroughS: 1500}},
+		Parts: []Part{{Name: "close", Race: true, Verbose: true, Run: c14Run, QuickS: 120, ThoroughS: 1500}},
 	})
 }
 
@@ -167,6 +168,7 @@ func c14Run(c *core.Ctx) {
 		var calls []int
 		var finished []bool
 		body := func() {
+			syslog.ResetForVerif(syslog.LvTrace) // every execution starts with cold logger state
 			c14Reset(closers)
 			a.Close()
 			calls, finished = c14Snapshot(closers)
